@@ -26,7 +26,7 @@ def family_structures():
     }
 
 
-def make_world(nchrom, fam, k, recomb_chroms, change_chroms, seed, change_mode="hom", nested=False):
+def make_world(nchrom, fam, k, recomb_chroms, change_chroms, seed, change_mode="hom", nested=False, stagger=False):
     """nested (trios, k = 6): variants 2 and 3 are heterozygous in every member (their own, read-connected phase set)
     and lie inside the interval in which the child's paternal haplotype recombines; the outer variants 0, 1, 4, 5 are
     joined by paired reads.  change_mode: the VCF claims 0/1 where the reads say 0/0 ("hom"), 1/1 where the reads
@@ -49,6 +49,13 @@ def make_world(nchrom, fam, k, recomb_chroms, change_chroms, seed, change_mode="
             if nested and any(s == m for _, _, m in trios):
                 # mothers: homozygous reference outside, heterozygous (alt on hap0) at the nested variants
                 haps[s][name] = [[1, 0] if i in (2, 3) else [0, 0] for i in range(k)]
+        if stagger and len(samples) > 1:
+            # the members of the second family (or the second unrelated sample) are homozygous at the first variant:
+            # their phase set starts one variant later than the first family's, at a position both families share
+            second = [x for x in samples if x.endswith("2")] or [samples[-1]]
+            for s in second:
+                if s not in children:
+                    haps[s][name][0] = [0, 0]
         for s, (f, m) in children.items():
             ent = []
             for i in range(k):
@@ -315,6 +322,9 @@ def worlds(tier):
                                                 continue
                                             world, tr = make_world(nchrom, fam, 3, recomb, change, seed, change_mode=mode)
                                             yield {"world": world, "trios": [list(t) for t in tr], "opts": dict(opts, tag=tag2), "lists": lists, "families": families, "fam": fam}
+                                if fam in ("two-unrelated", "two-trios", "trio+single") and not change and not recomb:
+                                    world, tr = make_world(nchrom, fam, 3, recomb, change, seed, stagger=True)
+                                    yield {"world": world, "trios": [list(t) for t in tr], "opts": opts, "lists": lists, "families": families, "fam": fam, "stagger": True}
                                 if trios and recomb and not change and nchrom <= 2:
                                     # a phase set nested inside the recombination interval
                                     world, tr = make_world(nchrom, fam, 6, recomb, change, seed, nested=True)
